@@ -9,6 +9,7 @@ import (
 	"os"
 	"runtime"
 	"strconv"
+	"strings"
 	"time"
 )
 
@@ -77,8 +78,15 @@ func main() {
 		// one P: the scratch-buffer pools are then reused deterministically from call to call, so a
 		// result that depends on an earlier call's data shows up as a disagreement with the model
 		runtime.GOMAXPROCS(1)
-		for sc.Scan() {
-			fmt.Fprintln(w, runGuarded(sc.Text()))
+		indexed := os.Getenv("HARNESS_INDEXED") != ""
+		for i := 0; sc.Scan(); i++ {
+			ans := runGuarded(sc.Text())
+			if indexed {
+				// "<index>\t<answer>": the reader aligns answers with cases by index, whatever else reaches the output
+				fmt.Fprintf(w, "#%d\t%s\n", i, strings.ReplaceAll(ans, "\n", " "))
+			} else {
+				fmt.Fprintln(w, ans)
+			}
 		}
 		stopRest()
 	default:
